@@ -9,3 +9,6 @@ import NxsModel.Props.C05
 import NxsModel.Props.C17
 import NxsModel.Props.C06
 import NxsModel.Props.C19
+import NxsModel.Props.C03
+import NxsModel.Handshake
+import NxsModel.Config
